@@ -43,7 +43,6 @@ SETUP_AB = ["create temp table a (x int)", "insert into a values (cast('1' as in
 # ExecutionStack abandons everything upstream (since commit 131551599 with an AbandonOperator finalize).
 #   name -> (setup, sql, expected row count, class)
 #   class "ok": must terminate on every schedule with `count` rows, each a row of the un-limited query
-#   class "nested_limit": TWO exhausting operators above a join with a drain phase (known finding)
 #   class "upstream_pipeline": other pipelines feed the limited one (UNION ALL, materialized CTE; known finding)
 LIMIT_QUERIES = {
     "lim_left_small": (SETUP_AB, "select 1 from b left join a a3 on a3.x = b.y limit 1", 1, "ok"),
@@ -69,8 +68,14 @@ LIMIT_QUERIES = {
     "lim_union_distinct": (SETUP, "select k from t1 union select k from t2 limit 5", 5, "ok"),
     "lim_scan": (SETUP, "select a from t1 limit 5", 5, "ok"),
     "exists_group_by": (SETUP, "select exists (select g from t1 group by g)", 1, "ok"),
-    "lim_lim_left": (SETUP, "select * from (select t2.b from t2 left join t1 on t2.b = t1.a limit 5) limit 3", 3, "nested_limit"),
-    "exists_lim_left": (SETUP, "select exists (select t2.b from t2 left join t1 on t2.b = t1.a limit 5)", 1, "nested_limit"),
+    # two or more exhausting operators above a drain join (hung until commit c83fc4e4d)
+    "lim_lim_left": (SETUP, "select * from (select t2.b from t2 left join t1 on t2.b = t1.a limit 5) limit 3", 3, "ok"),
+    "exists_lim_left": (SETUP, "select exists (select t2.b from t2 left join t1 on t2.b = t1.a limit 5)", 1, "ok"),
+    "lim_lim_lim_left": (SETUP, "select * from (select * from (select t2.b from t2 left join t1 on t2.b = t1.a limit 9) limit 5 offset 1) limit 2", 2, "ok"),
+    "lim_lim_nlj_left": (SETUP + ["set enable_hash_joins to false"],
+                         "select * from (select t2.b from t2 left join (select * from t1 where a < 300) u on t2.b = u.a limit 5) limit 3", 3, "ok"),
+    "lim_lim_left_left": (SETUP, "select * from (select t2.b, z.b from t2 left join t1 on t2.b = t1.a left join t2 z on z.b = t1.a + 1 limit 6) limit 4", 4, "ok"),
+    "exists_lim_semi": (SETUP, "select exists (select a from t1 where k in (select k from t2 where b < 500) limit 5)", 1, "ok"),
     "lim_union_all": (SETUP, "select a from t1 union all select b from t2 limit 5", 5, "upstream_pipeline"),
     "lim_materialized": (SETUP, "with c as materialized (select a, k from t1 where g = 1) select * from c union all select * from c limit 5", 5, "upstream_pipeline"),
 }
@@ -256,9 +261,7 @@ def stage_det(ctx, rng, gbin):
                     viol.append(("LIMIT above a barrier returned rows that the un-limited query does not have",
                                  dict(replay, rows=list(extra)[:5])))
                     continue
-            if out[0] == "hang" and cls == "nested_limit" and c["partitions"] >= 2:
-                known.append(("nested-limit-over-drain-join-hang", dict(replay, outcome=out[:2], steps=r.get("steps"))))
-            elif ok_rows and r.get("unfinished") and cls == "upstream_pipeline":
+            if ok_rows and r.get("unfinished") and cls == "upstream_pipeline":
                 known.append(("limit-leaves-upstream-tasks-parked", dict(replay, unfinished=r["unfinished"])))
             elif not ok_rows:
                 viol.append(("LIMIT above a barrier: %s" % out[0], dict(replay, outcome=out[:2], want_rows=nrows, steps=r.get("steps"))))
